@@ -136,7 +136,9 @@ func (m *runtimeContextManager) PushContext(ctx RuntimeContextDef) {
 	m.status = StatusLive
 	m.messageHandler = ctx.MessageHandler
 	m.parent = &parent
-	if ctx.GCPolicy == IsolateGCPolicy || ctx.HardLimits.Millis > 0 || ctx.HardLimits.Cpu > 0 || ctx.HardLimits.Memory > 0 {
+	// A context with limits or with required flags runs the finalizers of its
+	// own values itself, so that they are subject to its restrictions.
+	if ctx.GCPolicy == IsolateGCPolicy || ctx.HardLimits.Millis > 0 || ctx.HardLimits.Cpu > 0 || ctx.HardLimits.Memory > 0 || ctx.RequiredFlags != 0 {
 		m.weakRefPool = luagc.NewDefaultPool()
 		m.gcPolicy = IsolateGCPolicy
 	} else {
